@@ -402,6 +402,10 @@ func ProcessIndexRequestPle(tsNow uint64, indexNameIn string, flush bool,
 		}
 	}
 
+	if !vtable.IsNameSafeForPath(indexNameIn) {
+		return utils.TeeErrorf("ProcessIndexRequestPle: invalid index name %q", indexNameIn)
+	}
+
 	indexNameConverted := AddAndGetRealIndexName(indexNameIn, localIndexMap, myid)
 	tsKey := config.GetTimeStampKey()
 
